@@ -189,7 +189,8 @@ int handle_str_bos_overflow(const char *restrict msg, char *restrict dest,
     ((c) == '-' || (c) == '+' || (c) == ' ' || (c) == '#' || (c) == '0' ||     \
      (c) == '\'' || (c) == 'I' || ((c) >= '1' && (c) <= '9') || (c) == '*' ||   \
      (c) == '.' || (c) == '$' || (c) == 'h' || (c) == 'l' || (c) == 'L' ||      \
-     (c) == 'q' || (c) == 'j' || (c) == 'z' || (c) == 't' || (c) == 'm')
+     (c) == 'q' || (c) == 'j' || (c) == 'z' || (c) == 'Z' || (c) == 't' ||      \
+     (c) == 'm')
 
 int safec_fmt_has_n(const char *restrict fmt) {
     const char *p = fmt;
